@@ -358,3 +358,89 @@ def _run_script(case, s, mss, advance, put_ack):
             raise ValueError(st)
         if not ok:
             break
+
+
+# ------------------------------------------------------------------------------------------------
+# closed loop (C16): real sender <-> real TCPSink through two real Wires and harness droppers
+
+
+class Dropper:
+    """forwards packets to `out` except those whose transmission index (0-based, per direction) is in `drops`"""
+
+    def __init__(self, env, drops, rec):
+        self.env = env
+        self.drops = set(drops)
+        self.rec = rec          # list of [index, packet_id, ack, time, dropped]
+        self.n = 0
+        self.out = None
+
+    def put(self, p):
+        i = self.n
+        self.n += 1
+        dropped = i in self.drops
+        self.rec.append([i, p.packet_id, getattr(p, "ack", 0), qj(self.env.now), dropped])
+        if not dropped:
+            self.out.put(p)
+
+
+class AckTap:
+    """wire2.out: hands the ACK to the real sender.put inside a recorded `ack` event"""
+
+    def __init__(self, env, log):
+        self.env = env
+        self.log = log
+        self.sender = None
+
+    def put(self, a):
+        self.log.begin(["ack", a.ack, a.packet_id, qj(F(self.env.now) - F(a.time))])
+        try:
+            self.sender.put(a)
+        except Exception as e:
+            self.log.end(raised=e)
+            raise
+        self.log.end()
+
+
+def run_loop_case(case):
+    """case: alg, mss, cwnd, ssth, rtt0, nseg, delay (one way, 'n/d'), drop_data [idx], drop_ack [idx], t_max"""
+    from vlib.framework import CaseTimeout
+    from onl.sim import Environment
+    from onl.netdev.wire import Wire
+    from onl.packet.tcp_sink import TCPSink
+    env = Environment()
+    log = SenderLog(env, cap=case.get("max_events", 600))
+    d = float(fr(case["delay"]))
+    data_rec, ack_rec = [], []
+    drop1 = Dropper(env, case["drop_data"], data_rec)
+    drop2 = Dropper(env, case["drop_ack"], ack_rec)
+    wire1 = Wire(env, lambda: d)
+    wire2 = Wire(env, lambda: d)
+    sink = TCPSink(env)
+    tap = AckTap(env, log)
+    s = build_sender(env, case, log, out=drop1)
+    tap.sender = s
+    drop1.out = wire1
+    wire1.out = sink
+    sink.out = drop2
+    drop2.out = wire2
+    wire2.out = tap
+    raised = None
+    truncated = False
+    t_max = float(fr(case.get("t_max", "4096/1")))
+    try:
+        env.run(until=t_max)
+    except CaseTimeout:
+        raise
+    except TooLong:
+        truncated = True
+        log.cur = None
+    except Exception as e:
+        if log.cur is not None:
+            log.end(raised=e)
+        raised = canon_exc(e)
+    quiescent = (raised is None and not truncated and env.peek() == float("inf"))
+    return {"init": log.init, "entries": log.entries, "raised": raised, "truncated": truncated, "quiescent": quiescent,
+            "t_end": qj(env.now), "data": data_rec, "acks": ack_rec,
+            "sink_buffer": [list(r) for r in sink.recv_buffer], "sink_nse": sink.next_seq_expected,
+            "la": s.last_ack, "ns": s.next_seq, "timers_left": sorted(s.timers), "sent_left": sorted(s.sent_packets),
+            "fin": bool(s._finished)}
